@@ -20,12 +20,19 @@ H == TraceLog_[tid]
 AbsD(x, y) == IF x > y THEN x - y ELSE y - x
 
 \* ---- histories: fold over events with state <<g, L, verdict>>
+\* (the generation discipline of PamsFundamentals: a generation runs to the next start time ahead, else over one chunk)
+Starts == IF "starts" \in DOMAIN H THEN H.starts ELSE <<>>
+AheadOf(g) == {Starts[i] : i \in {j \in 1..Len(Starts) : Starts[j] > g}}
+StepLen(g, ch) == IF AheadOf(g) = {} THEN ch ELSE (CHOOSE x \in AheadOf(g) : \A y \in AheadOf(g) : x <= y) - g
 RECURSIVE GenLen(_, _, _, _)
-GenLen(g, L, t, ch) == IF t < g THEN <<g, L>> ELSE GenLen(g + ch, g + 1 + ch, t, ch)
+GenLen(g, L, t, ch) == IF t < g THEN <<g, L>> ELSE GenLen(g + StepLen(g, ch), g + 1 + StepLen(g, ch), t, ch)
 StepH(st, e, ch, n) ==
   LET g == st[1]  L == st[2]  vd0 == st[3]
       F(cur, cond, tag) == IF cur # "ok" THEN cur ELSE IF cond THEN "C12:" \o tag \o "@" \o ToString(n) ELSE "ok"
-      base == F(F(vd0, ~e.pos, "not-positive"), ~e.init, "initial-value-changed") IN
+      base == F(F(F(vd0, ~e.pos, "not-positive"), ~e.init, "initial-value-changed"),
+                \* a market that starts late holds its initial value up to its start; no generation writes there
+                \E i \in 1..Len(e.chg) : e.chg[i][1] + 1 <= Len(Starts) /\ e.chg[i][2] <= Starts[e.chg[i][1] + 1] /\ e.k # "shock",
+                "late-market-value-before-its-start-altered") IN
   CASE e.k = "get" ->
          LET r == GenLen(g, L, e.t, ch) IN
          <<r[1], r[2], F(F(base, \E i \in 1..Len(e.chg) : e.chg[i][2] <= g, "past-altered-by-generation"),
@@ -35,6 +42,8 @@ StepH(st, e, ch, n) ==
     [] e.k = "shock" ->
          <<e.t, L, F(F(F(base, \E i \in 1..Len(e.chg) : e.chg[i][2] < e.t \/ (e.chg[i][2] = e.t /\ e.chg[i][1] # e.m), "past-altered-by-shock"),
                        ~e.lvl, "does-not-continue-from-changed-level"), e.out # "ok", "shock-raised-" \o e.out)>>
+    [] e.k = "neg" ->        \* a change that has to be refused: it raises, nothing moves (genUntil included)
+         <<g, L, F(F(base, ~e.refused, "negative-volatility-accepted"), Len(e.chg) > 0, "refused-change-altered-values")>>
     [] e.k = "level" ->      \* zero volatility: the path is exactly level x exp(drift (u - t)) from the last change on
          <<g, L, F(base, ~e.lvl, "zero-volatility-closed-form")>>
     [] OTHER -> <<g, L, base>>
